@@ -304,3 +304,542 @@ Proof.
     split; [intros; discriminate|]. split; [intros _; exact Ho|].
     split; [cbn [s_offset] in *; exact Hl|exact Hm].
 Qed.
+
+(* ------------------------------------------------------------------ *)
+(* the walk terminates with End or Err, for every byte string           *)
+
+Definition measure (st : stream) : nat :=
+  (Z.to_nat (s_size st - s_offset st) + (if s_cur st then 0 else 1))%nat.
+
+Definition clean (v : verdict) : Prop :=
+  match v with VEnd | VErr _ => True | _ => False end.
+
+Lemma same_file_size st st' : same_file st st' -> s_size st' = s_size st.
+Proof. intros (Hb & _). unfold s_size. rewrite Hb. reflexivity. Qed.
+
+Lemma walk_total : forall fuel st,
+  inv st -> s_size st < 2 ^ 63 -> (measure st < fuel)%nat ->
+  clean (fst (walk guard_new fuel st)).
+Proof.
+  induction fuel as [|f IH]; intros st Hinv Hsz Hm; [lia|].
+  cbn [walk]. pose proof (step_inv st Hinv Hsz) as Hs. fold stream_step.
+  destruct (stream_step st) as [st'| |e| |]; try contradiction; try exact I.
+  destruct Hs as (Hinv' & Hcur' & Hsame & Hadv & Hstay & _).
+  assert (Hnp : s_cur st && (s_offset st' <=? s_offset st) = false).
+  { destruct (s_cur st) eqn:E; [|reflexivity]. destruct (Hadv eq_refl). cbn [andb]. lia. }
+  rewrite Hnp.
+  assert (Hm' : (measure st' < f)%nat).
+  { unfold measure in *. rewrite (same_file_size _ _ Hsame), Hcur'.
+    destruct Hinv as (_ & Ho & _). destruct Hinv' as (_ & Ho' & _). rewrite (same_file_size _ _ Hsame) in Ho'.
+    destruct (s_cur st) eqn:E.
+    - destruct (Hadv eq_refl). lia.
+    - rewrite (Hstay eq_refl). lia. }
+  specialize (IH st' Hinv' ltac:(rewrite (same_file_size _ _ Hsame); exact Hsz) Hm').
+  destruct (walk guard_new f st') as [v evs]. exact IH.
+Qed.
+
+Lemma load_obs_inv bs junk u st :
+  load_obs bs junk u = Loaded st ->
+  s_buf st = bs /\ s_junk st = junk /\ s_unsorted st = u /\ s_cur st = false /\ s_offset st = 8 /\ s_lastclock st = 0 /\
+  (s_active st = true -> inv st) /\ (s_active st = false -> blen bs = 8).
+Proof.
+  unfold load_obs. destruct (blen bs =? 0); [discriminate|].
+  destruct (check_stream_header bs junk); [discriminate|].
+  unfold c_sizeof_struct_ovni_stream_header.
+  destruct (8 <? blen bs) eqn:E1.
+  - intros H. inversion H; subst. cbn [s_buf s_junk s_unsorted s_cur s_offset s_lastclock s_active].
+    do 6 (split; [reflexivity|]). split.
+    + intros _. unfold inv, s_size. cbn [s_buf s_junk s_unsorted s_cur s_offset s_lastclock s_active].
+      split; [reflexivity|]. split; [lia|discriminate].
+    + discriminate.
+  - destruct (8 =? blen bs) eqn:E2; [|discriminate].
+    intros H. inversion H; subst. cbn [s_buf s_junk s_unsorted s_cur s_offset s_lastclock s_active].
+    do 6 (split; [reflexivity|]). split; [discriminate|]. intros _. lia.
+Qed.
+
+(* C19, stream layer: whatever the bytes (and whatever lies outside them), loading and stepping
+   a stream ends with End or an error within length+1 steps; no read leaves the buffer, no int
+   arithmetic overflows, the cursor never stalls. *)
+Theorem run_total bs junk u :
+  blen bs < 2 ^ 63 ->
+  match run bs junk u with
+  | RunLoadErr _ => True
+  | Run v _ => clean v
+  end.
+Proof.
+  intros Hsz. unfold run, run_with.
+  destruct (load_obs bs junk u) as [e|st] eqn:El; [exact I|].
+  destruct (load_obs_inv _ _ _ _ El) as (Hb & _ & _ & Hc & Ho & _ & Hi & _).
+  destruct (s_active st) eqn:Ea; [|exact I].
+  pose proof (walk_total (S (length bs)) st (Hi eq_refl)) as Hw.
+  unfold s_size in Hw. rewrite Hb in Hw. specialize (Hw Hsz).
+  assert (Hm : (measure st < S (length bs))%nat).
+  { destruct (Hi eq_refl) as (_ & Hlt & _). unfold measure, s_size in *. rewrite Hb, Hc, Ho in *. unfold blen in *. lia. }
+  specialize (Hw Hm). destruct (walk guard_new (S (length bs)) st). exact Hw.
+Qed.
+
+(* every Ok step moves the cursor strictly forward (by the size of the event it leaves behind) *)
+Theorem step_advances st st' :
+  inv st -> s_size st < 2 ^ 63 -> stream_step st = ROk st' -> s_cur st = true ->
+  s_offset st < s_offset st' /\ s_offset st' = s_offset st + ovni_ev_size (view st (s_offset st)).
+Proof.
+  intros Hi Hsz Hs Hc. pose proof (step_inv st Hi Hsz) as H. rewrite Hs in H.
+  destruct H as (_ & _ & _ & Hadv & _). destruct (Hadv Hc). lia.
+Qed.
+
+(* a single step from a state of the walk never reads outside the buffer nor overflows *)
+Theorem step_safe st :
+  inv st -> s_size st < 2 ^ 63 ->
+  (forall p, stream_step st <> ROob p) /\ stream_step st <> RSOverflow.
+Proof.
+  intros Hi Hsz. pose proof (step_inv st Hi Hsz) as H.
+  split; [intros p Hp|intros Hp]; rewrite Hp in H; exact H.
+Qed.
+
+(* ------------------------------------------------------------------ *)
+(* the hand-written read footprints cover what the translated functions read:
+   two views that agree on the footprint give the same result            *)
+
+Lemma rd_le_agree bs j1 j2 i n :
+  (forall q, In q (span i n) -> in_buf bs q = true) -> rd_le bs j1 i n = rd_le bs j2 i n.
+Proof.
+  intros H. apply rd_le_in_buf. intros k Hk. apply H. apply in_span. lia.
+Qed.
+
+Lemma flags_agree bs off j1 j2 :
+  in_buf bs off = true -> get_header_flags (mk_evp bs off j1) = get_header_flags (mk_evp bs off j2).
+Proof.
+  intros H. unfold get_header_flags, ev_rd, pre_off_flags. cbn [ebuf eoff ejunk].
+  apply rd_in_buf. replace (off + 0) with off by lia. exact H.
+Qed.
+
+Lemma jumbo_size_agree bs off j1 j2 :
+  (forall q, In q (span (off + 12) 4) -> in_buf bs q = true) ->
+  get_payload_jumbo_size (mk_evp bs off j1) = get_payload_jumbo_size (mk_evp bs off j2).
+Proof.
+  intros H. unfold get_payload_jumbo_size, ev_rd_le, pre_off_jumbo_size. cbn [ebuf eoff ejunk].
+  apply rd_le_agree. exact H.
+Qed.
+
+Lemma reads_ovni_ev_size_sound bs off j1 j2 :
+  first_oob bs (reads_ovni_ev_size (mk_evp bs off j1)) = None ->
+  ovni_ev_size (mk_evp bs off j1) = ovni_ev_size (mk_evp bs off j2).
+Proof.
+  intros H. rewrite first_oob_none in H. unfold reads_ovni_ev_size in H. cbn [eoff] in H.
+  assert (Hf : in_buf bs off = true).
+  { apply H. apply in_or_app. left. apply in_span. unfold pre_off_flags. lia. }
+  pose proof (flags_agree bs off j1 j2 Hf) as Hfl.
+  unfold ovni_ev_size, ovni_payload_size, get_jumbo_payload_size. rewrite <- Hfl.
+  unfold has_jumbo_flag in H.
+  destruct (negb (Z.land (get_header_flags (mk_evp bs off j1)) c_OVNI_EV_JUMBO =? 0)) eqn:Ej; [|reflexivity].
+  rewrite (jumbo_size_agree bs off j1 j2); [reflexivity|].
+  intros q Hq. apply H. apply in_or_app. right. exact Hq.
+Qed.
+
+Lemma reads_next_ev_size_sound bs off j1 j2 left :
+  first_oob bs (reads_next_ev_size (mk_evp bs off j1) left) = None ->
+  next_ev_size (mk_evp bs off j1) left = next_ev_size (mk_evp bs off j2) left.
+Proof.
+  intros H. rewrite first_oob_none in H. unfold reads_next_ev_size in H. cbn [eoff] in H.
+  rewrite (next_ev_size_eq (mk_evp bs off j1)), (next_ev_size_eq (mk_evp bs off j2)). unfold ev_size_checked.
+  unfold c_sizeof_struct_ovni_ev_header, c_sizeof_uint32_t in H.
+  destruct (left <? 12) eqn:E12; [reflexivity|].
+  assert (Hf : in_buf bs off = true).
+  { apply H. apply in_or_app. left. apply in_span. unfold pre_off_flags. lia. }
+  pose proof (flags_agree bs off j1 j2 Hf) as Hfl.
+  unfold has_jumbo_flag in *. rewrite <- Hfl.
+  destruct (negb (Z.land (get_header_flags (mk_evp bs off j1)) c_OVNI_EV_JUMBO =? 0)) eqn:Ej.
+  - change (12 + 4) with 16 in H. destruct (left <? 16) eqn:E16; [reflexivity|].
+    rewrite (jumbo_size_agree bs off j1 j2); [reflexivity|].
+    intros q Hq. apply H. apply in_or_app. right. exact Hq.
+  - unfold ovni_payload_size. rewrite <- Hfl, Ej. reflexivity.
+Qed.
+
+(* ------------------------------------------------------------------ *)
+(* bridge to the format specification (Emu/LoaderSpec.v)               *)
+
+Lemma rd_sbyte bs junk i : in_buf bs i = true -> rd bs junk i = sbyte bs i.
+Proof. intros H. unfold rd, sbyte. rewrite H. reflexivity. Qed.
+
+Lemma rd_le_sle bs junk n : forall i,
+  0 <= i -> i + Z.of_nat n <= blen bs -> rd_le bs junk i n = sle bs i n.
+Proof.
+  induction n as [|n IH]; intros i H0 H1; [reflexivity|].
+  cbn [rd_le sle]. rewrite rd_sbyte by (unfold in_buf; lia). rewrite IH by lia. reflexivity.
+Qed.
+
+Lemma spec_ev_size_model bs junk off :
+  0 <= off < blen bs ->
+  spec_ev_size bs off =
+  (let r := ev_size_checked (mk_evp bs off junk) (blen bs - off) in if r <? 0 then None else Some r).
+Proof.
+  intros Hoff. unfold spec_ev_size, ev_size_checked. cbv zeta.
+  change (slen bs) with (blen bs).
+  destruct (blen bs - off <? 12) eqn:E12; [reflexivity|].
+  assert (Hfl : get_header_flags (mk_evp bs off junk) = sbyte bs off).
+  { unfold get_header_flags, ev_rd, pre_off_flags. cbn [ebuf eoff ejunk].
+    replace (off + 0) with off by lia. apply rd_sbyte. unfold in_buf. lia. }
+  pose proof (flags_range (mk_evp bs off junk)) as Hfr.
+  destruct (sweep_facts _ Hfr) as (Hbit & Hmod & Hnj).
+  unfold has_jumbo_flag. unfold c_OVNI_EV_JUMBO. rewrite Hbit, Hfl.
+  destruct (Z.testbit (sbyte bs off) 4) eqn:Ej.
+  - destruct (blen bs - off <? 16) eqn:E16; [reflexivity|].
+    assert (Hjs : get_payload_jumbo_size (mk_evp bs off junk) = sle bs (off + 12) 4).
+    { unfold get_payload_jumbo_size, ev_rd_le, pre_off_jumbo_size. cbn [ebuf eoff ejunk].
+      apply rd_le_sle; lia. }
+    rewrite Hjs. pose proof (jumbo_size_range (mk_evp bs off junk)) as Hr. rewrite Hjs in Hr.
+    unfold C_INT_MAX.
+    destruct (16 + sle bs (off + 12) 4 >? 2147483647) eqn:Em.
+    + replace ((16 + sle bs (off + 12) 4 <=? blen bs - off) && (16 + sle bs (off + 12) 4 <=? 2147483647)) with false by lia.
+      reflexivity.
+    + destruct (blen bs - off <? 16 + sle bs (off + 12) 4) eqn:El.
+      * replace ((16 + sle bs (off + 12) 4 <=? blen bs - off) && (16 + sle bs (off + 12) 4 <=? 2147483647)) with false by lia.
+        reflexivity.
+      * replace ((16 + sle bs (off + 12) 4 <=? blen bs - off) && (16 + sle bs (off + 12) 4 <=? 2147483647)) with true by lia.
+        destruct (16 + sle bs (off + 12) 4 <? 0) eqn:En; [lia|reflexivity].
+  - assert (Hps : ovni_payload_size (mk_evp bs off junk) = (if sbyte bs off mod 16 =? 0 then 0 else sbyte bs off mod 16 + 1)).
+    { rewrite payload_size_nonjumbo.
+      - unfold nj_size. rewrite Hmod, Hfl. reflexivity.
+      - unfold has_jumbo_flag, c_OVNI_EV_JUMBO. rewrite Hbit, Hfl. exact Ej. }
+    rewrite Hps. rewrite <- Hfl, <- Hmod in *. fold (nj_size (get_header_flags (mk_evp bs off junk))) in *.
+    set (n := nj_size (get_header_flags (mk_evp bs off junk))) in *.
+    destruct (blen bs - off <? 12 + n) eqn:El.
+    + replace (12 + n <=? blen bs - off) with false by lia. reflexivity.
+    + replace (12 + n <=? blen bs - off) with true by lia.
+      destruct (12 + n <? 0) eqn:En; [lia|reflexivity].
+Qed.
+
+Lemma spec_clock_model bs junk off :
+  0 <= off -> off + 12 <= blen bs ->
+  spec_clock bs off = cast_int64 (get_header_clock (mk_evp bs off junk)).
+Proof.
+  intros H0 H1. unfold spec_clock, get_header_clock, ev_rd_le, pre_off_clock. cbn [ebuf eoff ejunk].
+  rewrite rd_le_sle by lia.
+  pose proof (rd_le_range bs junk 8 (off + 4)) as Hr. rewrite rd_le_sle in Hr by lia.
+  change (256 ^ Z.of_nat 8) with (2 ^ 64) in Hr.
+  unfold cast_int64, wraps. change (64 - 1) with 63.
+  rewrite Z.mod_small by lia. reflexivity.
+Qed.
+
+(* ------------------------------------------------------------------ *)
+(* stream_step refines the format specification: exact equation          *)
+
+Lemma next_reads_inside st off :
+  0 <= off < s_size st ->
+  first_oob (s_buf st) (reads_next_ev_size (view st off) (s_size st - off)) = None.
+Proof.
+  intros Hoff. apply first_oob_none. intros p Hp. unfold reads_next_ev_size in Hp.
+  unfold c_sizeof_struct_ovni_ev_header, c_sizeof_uint32_t in Hp. unfold s_size in *.
+  destruct (blen (s_buf st) - off <? 12) eqn:E12; [contradiction|].
+  apply in_app_or in Hp. destruct Hp as [Hp|Hp].
+  - apply in_span in Hp. cbn [view eoff] in Hp. unfold pre_off_flags in Hp. unfold in_buf. lia.
+  - destruct (has_jumbo_flag (view st off)); [|contradiction].
+    destruct (blen (s_buf st) - off <? 12 + 4) eqn:E16; [contradiction|].
+    apply in_span in Hp. cbn [view eoff] in Hp. unfold pre_off_jumbo_size in Hp. unfold in_buf. lia.
+Qed.
+
+(* where the cursor goes next *)
+Definition next_pos (st : stream) : Z :=
+  if s_cur st then s_offset st + ovni_ev_size (view st (s_offset st)) else s_offset st.
+
+Definition spec_step (st : stream) : step_res :=
+  let p := next_pos st in
+  if s_cur st && (p =? s_size st)
+  then REnd (mk_stream (s_buf st) (s_junk st) p false false (s_lastclock st) (s_unsorted st))
+  else match spec_ev_size (s_buf st) p with
+       | None => RErr EIncomplete
+       | Some _ =>
+         let c := spec_clock (s_buf st) p in
+         if negb (s_unsorted st) && (c <? s_lastclock st) then RErr EClockBackwards
+         else ROk (mk_stream (s_buf st) (s_junk st) p true true c (s_unsorted st))
+       end.
+
+Lemma examine_exact st p :
+  8 <= p < s_size st -> s_size st < 2 ^ 63 ->
+  (let ev := view st p in
+   let left := cast_int64 (s_size st - p) in
+   match guard_new (s_buf st) ev left with
+   | GOob q => ROob q
+   | GOverflow => RSOverflow
+   | GIncomplete => RErr EIncomplete
+   | GFits =>
+     match first_oob (s_buf st) (reads_clock ev) with
+     | Some q => ROob q
+     | None =>
+       let clock := cast_int64 (get_header_clock ev) in
+       if negb (s_unsorted st) && (clock <? s_lastclock st) then RErr EClockBackwards
+       else ROk (mk_stream (s_buf st) (s_junk st) p true true clock (s_unsorted st))
+     end
+   end) =
+  match spec_ev_size (s_buf st) p with
+  | None => RErr EIncomplete
+  | Some _ =>
+    let c := spec_clock (s_buf st) p in
+    if negb (s_unsorted st) && (c <? s_lastclock st) then RErr EClockBackwards
+    else ROk (mk_stream (s_buf st) (s_junk st) p true true c (s_unsorted st))
+  end.
+Proof.
+  intros Hp Hsz. cbv zeta.
+  rewrite cast_int64_small by (unfold s_size in *; lia).
+  unfold guard_new. rewrite (next_reads_inside st p) by lia.
+  rewrite (spec_ev_size_model (s_buf st) (s_junk st) p) by (unfold s_size in *; lia).
+  cbv zeta. change (mk_evp (s_buf st) p (s_junk st)) with (view st p). fold (s_size st).
+  destruct (ev_size_checked (view st p) (s_size st - p) <? 0) eqn:E; [reflexivity|].
+  assert (Hf : fits st p) by (unfold fits; lia).
+  rewrite (clock_inside st p Hf) by lia.
+  destruct (ev_size_checked_ok _ _ _ eq_refl Hf) as (H12 & _).
+  rewrite (spec_clock_model (s_buf st) (s_junk st) p) by (unfold s_size in *; lia).
+  reflexivity.
+Qed.
+
+Theorem step_exact st :
+  inv st -> s_size st < 2 ^ 63 -> stream_step st = spec_step st.
+Proof.
+  intros (Hact & Hoff & Hfit) Hsz.
+  unfold stream_step, step_with, spec_step, next_pos. rewrite Hact. cbn [negb]. unfold advance.
+  destruct (s_cur st) eqn:Ecur.
+  - specialize (Hfit eq_refl).
+    rewrite (ev_size_reads_inside st _ Hfit) by lia.
+    destruct (ev_size_checked_ok _ _ _ eq_refl Hfit) as (H12 & Hmax & Hsize & Hint & _).
+    rewrite Hint. cbn [negb andb].
+    set (sz := ovni_ev_size (view st (s_offset st))) in *.
+    rewrite cast_int64_small by (unfold s_size in *; lia).
+    destruct (s_offset st + sz >? s_size st) eqn:Egt; [lia|].
+    destruct (s_offset st + sz =? s_size st) eqn:Eeq; [reflexivity|].
+    apply examine_exact; lia.
+  - cbn [andb]. apply examine_exact; lia.
+Qed.
+
+Lemma spec_step_inv st st' :
+  inv st -> s_size st < 2 ^ 63 -> spec_step st = ROk st' ->
+  inv st' /\ same_file st st' /\ s_cur st' = true /\ s_offset st' = next_pos st /\
+  s_lastclock st' = spec_clock (s_buf st) (next_pos st).
+Proof.
+  intros Hi Hsz Hs. pose proof (step_inv st Hi Hsz) as H. rewrite (step_exact st Hi Hsz), Hs in H.
+  destruct H as (Hi' & Hc' & Hsame & _).
+  unfold spec_step in Hs.
+  destruct (s_cur st && (next_pos st =? s_size st)); [discriminate|].
+  destruct (spec_ev_size (s_buf st) (next_pos st)); [|discriminate].
+  cbv zeta in Hs.
+  destruct (negb (s_unsorted st) && (spec_clock (s_buf st) (next_pos st) <? s_lastclock st)); [discriminate|].
+  inversion Hs; subst st'. cbn [s_offset s_lastclock s_cur] in *.
+  split; [exact Hi'|]. split; [exact Hsame|]. split; [reflexivity|]. split; reflexivity.
+Qed.
+
+Lemma view_same st st' o : same_file st st' -> view st' o = view st o.
+Proof. intros (Hb & Hj & _). unfold view. rewrite Hb, Hj. reflexivity. Qed.
+
+Lemma inv_next_pos st :
+  inv st -> s_cur st = true ->
+  spec_ev_size (s_buf st) (s_offset st) = Some (ovni_ev_size (view st (s_offset st))) /\
+  s_offset st + 12 <= next_pos st <= s_size st.
+Proof.
+  intros (Hact & Hoff & Hfit) Hc. specialize (Hfit Hc).
+  destruct (ev_size_checked_ok _ _ _ eq_refl Hfit) as (H12 & Hmax & Hsize & Hint & _).
+  rewrite (spec_ev_size_model (s_buf st) (s_junk st)) by (unfold s_size in *; lia).
+  cbv zeta. change (mk_evp (s_buf st) (s_offset st) (s_junk st)) with (view st (s_offset st)).
+  fold (s_size st). unfold fits in Hfit.
+  destruct (ev_size_checked (view st (s_offset st)) (s_size st - s_offset st) <? 0) eqn:E; [lia|].
+  rewrite Hsize. split; [reflexivity|]. unfold next_pos. rewrite Hc, Hsize. lia.
+Qed.
+
+(* soundness of acceptance: if the walk ends with End, the bytes from the cursor on are exactly
+   the delivered events, back to back up to the end of the file, clocks in order *)
+Lemma walk_sound : forall fuel st evs,
+  inv st -> s_size st < 2 ^ 63 ->
+  walk guard_new fuel st = (VEnd, evs) ->
+  tiles_from (s_buf st) (negb (s_unsorted st)) (next_pos st) (s_lastclock st) evs.
+Proof.
+  induction fuel as [|f IH]; intros st evs Hi Hsz Hw; [discriminate|].
+  cbn [walk] in Hw. fold stream_step in Hw. rewrite (step_exact st Hi Hsz) in Hw.
+  destruct (spec_step st) as [st'|st'|e|q|] eqn:Es; try (inversion Hw; fail).
+  - destruct (spec_step_inv st st' Hi Hsz Es) as (Hi' & Hsame & Hc' & Ho' & Hl').
+    destruct (s_cur st && (s_offset st' <=? s_offset st)); [discriminate|].
+    destruct (walk guard_new f st') as [v evs'] eqn:Ew. inversion Hw; subst v evs. clear Hw.
+    specialize (IH st' evs' Hi' ltac:(rewrite (same_file_size _ _ Hsame); exact Hsz) Ew).
+    destruct Hsame as (Hb & Hj & Hu). rewrite Hb, Hu in IH.
+    destruct (inv_next_pos st' Hi' Hc') as (Hspec & Hrange).
+    rewrite Hb in Hspec.
+    assert (Hnp : next_pos st' = s_offset st' + ovni_ev_size (view st' (s_offset st'))).
+    { unfold next_pos. rewrite Hc'. reflexivity. }
+    rewrite Hnp in IH. rewrite Hl' in *. rewrite Ho' in *.
+    apply tiles_ev.
+    + destruct Hi' as (_ & Hlt & _). unfold s_size in Hlt. rewrite Hb in Hlt. change (slen (s_buf st)) with (blen (s_buf st)). lia.
+    + exact Hspec.
+    + intros Hsorted. unfold spec_step in Es.
+      destruct (s_cur st && (next_pos st =? s_size st)); [discriminate|].
+      destruct (spec_ev_size (s_buf st) (next_pos st)); [|discriminate]. cbv zeta in Es.
+      rewrite Hsorted in Es. cbn [andb] in Es.
+      destruct (spec_clock (s_buf st) (next_pos st) <? s_lastclock st) eqn:Ec; [discriminate|]. lia.
+    + exact IH.
+  - inversion Hw; subst evs. unfold spec_step in Es.
+    destruct (s_cur st && (next_pos st =? s_size st)) eqn:E.
+    + apply andb_prop in E. destruct E as (_ & E). apply Z.eqb_eq in E. rewrite E. apply tiles_end.
+    + destruct (spec_ev_size (s_buf st) (next_pos st)); [|discriminate]. cbv zeta in Es.
+      destruct (negb (s_unsorted st) && (spec_clock (s_buf st) (next_pos st) <? s_lastclock st)); discriminate.
+Qed.
+
+(* completeness: a tiling of the rest of the file is walked to the End, delivering exactly it *)
+Lemma walk_complete bs sorted : forall p last evs,
+  tiles_from bs sorted p last evs ->
+  forall fuel st, inv st -> s_size st < 2 ^ 63 ->
+    s_buf st = bs -> negb (s_unsorted st) = sorted -> next_pos st = p -> s_lastclock st = last ->
+    (length evs < fuel)%nat ->
+    walk guard_new fuel st = (VEnd, evs).
+Proof.
+  induction 1 as [last|off last s evs Hlt Hspec Hsort Htl IH];
+    intros fuel st Hi Hsz Hb Hu Hp Hl Hf.
+  - destruct fuel as [|f]; [cbn in Hf; lia|].
+    cbn [walk]. fold stream_step. rewrite (step_exact st Hi Hsz). unfold spec_step.
+    rewrite Hp. unfold s_size. rewrite Hb. change (slen bs) with (blen bs).
+    rewrite Z.eqb_refl.
+    destruct (s_cur st) eqn:Ec; [reflexivity|].
+    exfalso. destruct Hi as (_ & Ho & _). unfold next_pos in Hp. rewrite Ec in Hp.
+    unfold s_size in Ho. rewrite Hb in Ho. change (slen bs) with (blen bs) in Hp. lia.
+  - destruct fuel as [|f]; [cbn in Hf; lia|].
+    cbn [walk]. fold stream_step. rewrite (step_exact st Hi Hsz).
+    destruct (spec_step st) as [st'|st'|e|q|] eqn:Es.
+    + destruct (spec_step_inv st st' Hi Hsz Es) as (Hi' & Hsame & Hc' & Ho' & Hl').
+      rewrite Hp in Ho'. rewrite Hb, Hp in Hl'.
+      assert (Hnp : s_cur st && (s_offset st' <=? s_offset st) = false).
+      { destruct (s_cur st) eqn:Ec; [|reflexivity]. cbn [andb].
+        destruct (inv_next_pos st Hi Ec) as (_ & Hr). lia. }
+      rewrite Hnp.
+      destruct (inv_next_pos st' Hi' Hc') as (Hspec' & _).
+      destruct Hsame as (Hb' & Hj' & Hu').
+      rewrite Hb', Hb, Ho', Hspec in Hspec'. inversion Hspec' as [Hs].
+      rewrite (IH f st'); try assumption.
+      * rewrite Ho', Hl', <- Hs. reflexivity.
+      * unfold s_size in *. rewrite Hb'. exact Hsz.
+      * congruence.
+      * rewrite Hu'. exact Hu.
+      * unfold next_pos. rewrite Hc', Ho', <- Hs. reflexivity.
+      * cbn [length] in Hf. lia.
+    + exfalso. unfold spec_step in Es. rewrite Hp in Es.
+      destruct (s_cur st && (off =? s_size st)) eqn:E.
+      * apply andb_prop in E. destruct E as (_ & E). unfold s_size in E. rewrite Hb in E.
+        change (slen bs) with (blen bs) in Hlt. lia.
+      * rewrite Hb, Hspec in Es. cbv zeta in Es.
+        destruct (negb (s_unsorted st) && (spec_clock bs off <? s_lastclock st)); discriminate.
+    + exfalso. unfold spec_step in Es. rewrite Hp in Es.
+      destruct (s_cur st && (off =? s_size st)) eqn:E; [discriminate|].
+      rewrite Hb, Hspec in Es. cbv zeta in Es. rewrite Hu, Hl in Es.
+      destruct sorted.
+      * specialize (Hsort eq_refl). cbn [andb] in Es.
+        destruct (spec_clock bs off <? last) eqn:Ec; [lia|discriminate].
+      * cbn [andb] in Es. discriminate.
+    + exfalso. unfold spec_step in Es.
+      destruct (s_cur st && (next_pos st =? s_size st)); [discriminate|].
+      destruct (spec_ev_size (s_buf st) (next_pos st)); [|discriminate]. cbv zeta in Es.
+      destruct (negb (s_unsorted st) && (spec_clock (s_buf st) (next_pos st) <? s_lastclock st)); discriminate.
+    + exfalso. unfold spec_step in Es.
+      destruct (s_cur st && (next_pos st =? s_size st)); [discriminate|].
+      destruct (spec_ev_size (s_buf st) (next_pos st)); [|discriminate]. cbv zeta in Es.
+      destruct (negb (s_unsorted st) && (spec_clock (s_buf st) (next_pos st) <? s_lastclock st)); discriminate.
+Qed.
+
+(* events are at least 12 bytes: a tiling of n bytes has at most n/12 events *)
+Lemma spec_ev_size_min bs off s : spec_ev_size bs off = Some s -> 12 <= s <= slen bs - off.
+Proof.
+  unfold spec_ev_size. cbv zeta.
+  destruct (slen bs - off <? 12) eqn:E12; [discriminate|].
+  destruct (Z.testbit (sbyte bs off) 4).
+  - destruct (slen bs - off <? 16) eqn:E16; [discriminate|].
+    assert (0 <= sle bs (off + 12) 4).
+    { clear. generalize (off + 12). generalize 4%nat. induction n as [|n IH]; intros i; cbn [sle]; [lia|].
+      specialize (IH (i + 1)). unfold sbyte. pose proof (Z.mod_pos_bound (nth (Z.to_nat i) bs 0) 256 ltac:(lia)). lia. }
+    destruct ((16 + sle bs (off + 12) 4 <=? slen bs - off) && (16 + sle bs (off + 12) 4 <=? 2147483647)) eqn:E; [|discriminate].
+    intros H'. inversion H'. lia.
+  - assert (0 <= sbyte bs off mod 16 < 16) by (apply Z.mod_pos_bound; lia).
+    destruct (sbyte bs off mod 16 =? 0) eqn:E0.
+    + destruct (12 + 0 <=? slen bs - off) eqn:E; [|discriminate]. intros H'. inversion H'. lia.
+    + destruct (12 + (sbyte bs off mod 16 + 1) <=? slen bs - off) eqn:E; [|discriminate]. intros H'. inversion H'. lia.
+Qed.
+
+Lemma tiles_count bs sorted p last evs :
+  tiles_from bs sorted p last evs -> p <= slen bs /\ 12 * Z.of_nat (length evs) <= slen bs - p.
+Proof.
+  induction 1 as [last|off last s evs Hlt Hspec Hsort Htl IH].
+  - cbn. lia.
+  - apply spec_ev_size_min in Hspec. cbn [length]. lia.
+Qed.
+
+Lemma tiles_deterministic bs s1 s2 : forall p l1 l2 e1 e2,
+  tiles_from bs s1 p l1 e1 -> tiles_from bs s2 p l2 e2 -> e1 = e2.
+Proof.
+  intros p l1 l2 e1 e2 H1. revert l2 e2.
+  induction H1 as [last|off last s evs Hlt Hspec Hsort Htl IH]; intros l2 e2 H2.
+  - inversion H2; subst; [reflexivity|lia].
+  - inversion H2; subst; [lia|].
+    assert (s0 = s) by congruence. subst s0. f_equal. eapply IH. eassumption.
+Qed.
+
+Lemma tiles_weaken bs p last evs : tiles_from bs true p last evs -> forall l', tiles_from bs false p l' evs.
+Proof.
+  induction 1 as [last|off last s evs Hlt Hspec Hsort Htl IH]; intros l'.
+  - apply tiles_end.
+  - apply tiles_ev; try assumption; [discriminate|apply IH].
+Qed.
+
+(* header *)
+Lemma header_model bs junk :
+  check_stream_header bs junk = None <-> spec_header_ok bs = true.
+Proof.
+  unfold check_stream_header, spec_header_ok, c_sizeof_struct_ovni_stream_header. change (slen bs) with (blen bs).
+  destruct (blen bs <? 8) eqn:E8.
+  - replace (8 <=? blen bs) with false by lia. cbn [andb]. split; discriminate.
+  - replace (8 <=? blen bs) with true by lia. cbn [andb].
+    unfold magic_of, c_OVNI_STREAM_MAGIC, c_OVNI_STREAM_VERSION, pre_off_magic, pre_off_version, list_eqb.
+    cbn [seq map length combine forallb fst snd Nat.eqb andb Z.of_nat Pos.of_succ_nat Pos.succ].
+    rewrite !rd_sbyte by (unfold in_buf; lia). rewrite rd_le_sle by (cbn; lia).
+    change (0 + 0) with 0. change (0 + 1) with 1. change (0 + 2) with 2. change (0 + 3) with 3.
+    destruct (sbyte bs 0 =? 111), (sbyte bs 1 =? 118), (sbyte bs 2 =? 110), (sbyte bs 3 =? 105), (sle bs 4 4 =? 1);
+      cbn; split; (reflexivity || discriminate).
+Qed.
+
+(* C12: acceptance is exactly structural validity *)
+Theorem run_accept_iff bs junk u evs :
+  blen bs < 2 ^ 63 ->
+  (run bs junk u = Run VEnd evs <-> valid_obs bs (negb u) evs).
+Proof.
+  intros Hsz. unfold run, run_with, valid_obs. split.
+  - destruct (load_obs bs junk u) as [e|st] eqn:El; [discriminate|].
+    destruct (load_obs_inv _ _ _ _ El) as (Hb & Hj & Hu & Hc & Ho & Hl & Hi & Hin).
+    assert (Hh : spec_header_ok bs = true).
+    { apply (header_model bs junk). unfold load_obs in El. destruct (blen bs =? 0); [discriminate|].
+      destruct (check_stream_header bs junk); [discriminate|reflexivity]. }
+    destruct (s_active st) eqn:Ea.
+    + destruct (walk guard_new (S (length bs)) st) as [v evs'] eqn:Ew. intros H. inversion H; subst v evs'.
+      split; [exact Hh|].
+      pose proof (walk_sound _ st evs (Hi eq_refl) ltac:(unfold s_size; rewrite Hb; exact Hsz) Ew) as Ht.
+      unfold next_pos in Ht. rewrite Hb, Hu, Hc, Ho, Hl in Ht. exact Ht.
+    + intros H. inversion H; subst evs. split; [exact Hh|].
+      specialize (Hin eq_refl). replace 8 with (slen bs) by (change (slen bs) with (blen bs); lia). apply tiles_end.
+  - intros (Hh & Ht).
+    assert (Hc : check_stream_header bs junk = None) by (apply header_model; exact Hh).
+    assert (H8 : 8 <= blen bs).
+    { unfold spec_header_ok in Hh. change (slen bs) with (blen bs) in Hh. lia. }
+    unfold load_obs. rewrite Hc. destruct (blen bs =? 0) eqn:E0; [lia|].
+    unfold c_sizeof_struct_ovni_stream_header.
+    destruct (8 <? blen bs) eqn:E1.
+    + cbn [s_active].
+      rewrite (walk_complete bs (negb u) 8 0 evs Ht (S (length bs)) (mk_stream bs junk 8 false true 0 u)); try reflexivity.
+      * unfold inv, s_size. cbn [s_active s_offset s_cur s_buf]. split; [reflexivity|]. split; [lia|discriminate].
+      * unfold s_size. cbn [s_buf]. exact Hsz.
+      * destruct (tiles_count _ _ _ _ _ Ht) as (_ & Hn). change (slen bs) with (blen bs) in Hn. unfold blen in *. lia.
+    + replace (8 =? blen bs) with true by lia. cbn [s_active].
+      inversion Ht; subst; [reflexivity|]. change (slen bs) with (blen bs) in *. lia.
+Qed.
+
+(* C12, structural classes in one statement: a stream file that is not structurally valid is
+   rejected with an error (never End, and by run_total nothing else) *)
+Theorem invalid_rejected bs junk u :
+  blen bs < 2 ^ 63 ->
+  (forall evs, ~ valid_obs bs (negb u) evs) ->
+  rejected_cleanly (run bs junk u) = true.
+Proof.
+  intros Hsz Hn. pose proof (run_total bs junk u Hsz) as Ht.
+  destruct (run bs junk u) as [e|v evs] eqn:Er; [reflexivity|].
+  destruct v; try contradiction; [|reflexivity].
+  exfalso. apply (Hn evs). apply (run_accept_iff bs junk u evs Hsz). exact Er.
+Qed.
